@@ -331,12 +331,12 @@ def check_replace(ctx, R, kw, rng):
     if 'count' in kw:
         changes += [{'count': kw['count'] + 2}, {'count': max(0, kw['count'] - 1)}, {'count': 0}]
     elif 'until' in kw:
-        changes += [{'until': kw['until'] + D.timedelta(days=5)}, {'until': kw['until'] - D.timedelta(days=1)}]
+        changes += [{'until': kw['until'] + D.timedelta(days=5) if kw['until'].year < 9999 else kw['until']}, {'until': kw['until'] - D.timedelta(days=1)}]
     else:
         changes += [{'count': 3}, {'until': st - D.timedelta(days=2)}, {'until': st}]
     # a parameter may also be replaced by None (= not given): switch the end condition, drop a BY-part
     if 'count' in kw:
-        changes += [{'count': None, 'until': st + D.timedelta(days=40)}]
+        changes += [{'count': None, 'until': (st + D.timedelta(days=40)) if st.year < 9999 else D.datetime(9999, 12, 31, 23)}]
     if 'until' in kw:
         changes += [{'until': None, 'count': 4}]
     for k in ('byweekday', 'bymonthday', 'bysetpos', 'byhour'):
